@@ -17,7 +17,8 @@ harness and the decoder that `flatecut.cutSingleBlock` calls:
   length of the end-of-block code).
 
 API (everything total, structural recursion on fuel that provably suffices):
-  `inflateRaw dict s cap : Result`      full detail (status, bit position, output)
+  `inflateRaw dict s cap : Result`      full detail (status, bit position, output); `cap = some n`
+                                        = stop as soon as `n` bytes are out (`Status.capped`)
   `inflate s : Option (Bytes × Nat)`    output and number of consumed bytes
   `inflateList : List UInt8 → Option (List UInt8 × Nat)`
   `zlibDecode dict s : Option (Bytes × Nat)`,  `adler32`.
@@ -123,6 +124,12 @@ def windowSize : Nat := 32768
 
 /-! ## Blocks -/
 
+/-- `cap = some n`: the caller only wants the first `n` bytes; `none`: everything. -/
+@[inline] def capReached (cap : Option Nat) (n : Nat) : Bool :=
+  match cap with
+  | none => false
+  | some c => decide (c ≤ n)
+
 inductive Status where
   | done        -- the final block ended
   | truncated   -- the input ended inside the stream (Go: io.ErrUnexpectedEOF)
@@ -154,7 +161,7 @@ def storedBlock (s : Bytes) (p : Nat) (out : Bytes) : BlockResult :=
 
 /-- Compressed data of one Huffman block (§3.2.3, §3.2.5). `lo` = offset of the real output
 inside `out` (length of the preset dictionary). -/
-def huffBlock (hl hd : Huff) (minL minD : Nat) (s : Bytes) (cap lo : Nat) :
+def huffBlock (hl hd : Huff) (minL minD : Nat) (s : Bytes) (cap : Option Nat) (lo : Nat) :
     (fuel : Nat) → (p : Nat) → (out : Bytes) → BlockResult
   | 0, p, out => .stop .corrupt p out
   | fuel + 1, p, out =>
@@ -164,7 +171,7 @@ def huffBlock (hl hd : Huff) (minL minD : Nat) (s : Bytes) (cap lo : Nat) :
     | .sym v p1 =>
       if v < 256 then
         let out := out.push (UInt8.ofNat v)
-        if out.size - lo ≥ cap then .stop .capped p1 out
+        if capReached cap (out.size - lo) then .stop .capped p1 out
         else huffBlock hl hd minL minD s cap lo fuel p1 out
       else if v = 256 then .next p1 out
       else if v ≥ 286 then .stop .corrupt p out
@@ -186,7 +193,7 @@ def huffBlock (hl hd : Huff) (minL minD : Nat) (s : Bytes) (cap lo : Nat) :
                 if dist > out.size ∨ dist > windowSize then .stop .corrupt p out
                 else
                   let out := copyMatch out dist len
-                  if out.size - lo ≥ cap then .stop .capped (p2 + de) out
+                  if capReached cap (out.size - lo) then .stop .capped (p2 + de) out
                   else huffBlock hl hd minL minD s cap lo fuel (p2 + de) out
 
 inductive LensResult where
@@ -258,7 +265,7 @@ structure Result where
 deriving Repr
 
 /-- The block loop (§3.2.3). -/
-def blocks (s : Bytes) (cap lo : Nat) : (fuel : Nat) → (p : Nat) → (out : Bytes) → Result
+def blocks (s : Bytes) (cap : Option Nat) (lo : Nat) : (fuel : Nat) → (p : Nat) → (out : Bytes) → Result
   | 0, p, out => ⟨.corrupt, p, out⟩
   | fuel + 1, p, out =>
     if avail s p < 3 then ⟨.truncated, p, out⟩
@@ -278,23 +285,20 @@ def blocks (s : Bytes) (cap lo : Nat) : (fuel : Nat) → (p : Nat) → (out : By
       | .stop st p out => ⟨st, p, out⟩
       | .next p1 out =>
         if final = 1 then ⟨.done, p1, out⟩
-        else if out.size - lo ≥ cap then ⟨.capped, p1, out⟩
+        else if capReached cap (out.size - lo) then ⟨.capped, p1, out⟩
         else blocks s cap lo fuel p1 out
 
 /-- Decode the DEFLATE stream `s` with preset dictionary `dict`, producing at least
-`min cap (everything)` output bytes.  `out` has the dictionary stripped. -/
-def inflateRaw (dict : Bytes) (s : Bytes) (cap : Nat) : Result :=
+`min cap (everything)` output bytes (`cap = none`: everything).  `out` has the dictionary stripped. -/
+def inflateRaw (dict : Bytes) (s : Bytes) (cap : Option Nat) : Result :=
   let d := if dict.size > windowSize then dict.extract (dict.size - windowSize) dict.size else dict
   let r := blocks s cap d.size (8 * s.size + 1) 0 d
   { r with out := r.out.extract d.size r.out.size }
 
-/-- A very large cap: "decode everything". -/
-def noCap : Nat := 2 ^ 62
-
 /-- RFC 1951 decoder: the decompressed data and the number of input bytes used
 (the stream ends in the middle of its last byte; trailing bytes are not looked at). -/
 def inflateDict (dict s : Bytes) : Option (Bytes × Nat) :=
-  let r := inflateRaw dict s noCap
+  let r := inflateRaw dict s none
   if r.status = .done then some (r.out, (r.pos + 7) / 8) else none
 
 def inflate (s : Bytes) : Option (Bytes × Nat) := inflateDict #[] s
